@@ -391,6 +391,19 @@ async fn populate(store: &SqliteStore, env: &Env) -> Result<(), String> {
     store.commit(permit).await.map_err(|e| e.to_string())
 }
 
+/// A store call the harness makes itself. It can only block when an activity that the model says
+/// is parked elsewhere sits on the store's transaction permit or on a pool connection, i.e. when
+/// the critical section of `Acked` is not exclusive; never wait for that forever.
+async fn bounded<T>(site: &'static str, fut: impl Future<Output = T>) -> Option<T> {
+    match tokio::time::timeout(Duration::from_secs(10), fut).await {
+        Ok(v) => Some(v),
+        Err(_) => {
+            violation("store-call-of-the-harness-blocked", site, "no answer within 10 s: an activity that should be parked on the Acked semaphore holds the store's transaction permit or a pool connection".into());
+            None
+        }
+    }
+}
+
 #[derive(Clone, Copy, PartialEq, Eq, Debug)]
 enum St {
     Ready,
@@ -416,14 +429,15 @@ struct Checker {
 impl Checker {
     /// Look at the persisted cursor and compare it with the previous look and with the model.
     async fn look(&mut self, sqlite: &SqliteStore, acked: &Acked, model: &Rc<RefCell<Model>>, env: &Env, what: &str) -> bool {
-        let cur = match acked.cursor().await {
+        let Some(cur) = bounded("Acked::cursor", acked.cursor()).await else { return false };
+        let cur = match cur {
             Ok(c) => c,
             Err(e) => {
                 violation("cursor-unreadable", "Acked::cursor", format!("{what}: {e}"));
                 return false;
             }
         };
-        let row: Result<Option<Cursor<VerifyingKey, LogId>>, _> = sqlite.get_cursor(&env.name).await;
+        let Some(row) = bounded("CursorStore::get_cursor", async { let r: Result<Option<Cursor<VerifyingKey, LogId>>, _> = sqlite.get_cursor(&env.name).await; r }).await else { return false };
         let row = match row {
             Ok(r) => r.map(|c| encode_cbor(&c).unwrap_or_default()),
             Err(e) => {
@@ -520,11 +534,14 @@ async fn run_phase(phase: usize, sqlite: &SqliteStore, acked: &Acked, model: &Rc
             break PhaseEnd::Quiescent;
         }
         let what: String;
-        if cancel_budget > 0 && ctx::chance("cancel", 1, 5) {
+        if cancel_budget > 0 && ctx::chance("cancel", 1, if blocked.is_empty() { 8 } else { 3 }) {
             // Fault: drop an activity right where it is suspended.
             cancel_budget -= 1;
+            // Mostly an activity that is parked inside `ack`; otherwise anyone.
             let mut cands = blocked.clone();
-            cands.extend(ready.iter().copied());
+            if blocked.is_empty() || !ctx::chance("cancel.parked_one", 3, 4) {
+                cands.extend(ready.iter().copied());
+            }
             let a = cands[ctx::choose("cancel.which", cands.len())];
             let was = st[a];
             let holder = model.borrow().holder == Some(a);
@@ -551,14 +568,18 @@ async fn run_phase(phase: usize, sqlite: &SqliteStore, acked: &Acked, model: &Rc
         } else if t_permit.is_some() && (ready.is_empty() || ctx::chance("t.release", 1, 3)) {
             let permit = t_permit.take().unwrap();
             let how = ctx::choose("t.end", 3);
-            let r = match how {
-                0 => sqlite.commit(permit).await.map_err(|e| e.to_string()),
-                1 => sqlite.rollback(permit).await.map_err(|e| e.to_string()),
-                _ => {
-                    drop(permit);
-                    Ok(())
+            let r = bounded("other component's commit / rollback", async {
+                match how {
+                    0 => sqlite.commit(permit).await.map_err(|e| e.to_string()),
+                    1 => sqlite.rollback(permit).await.map_err(|e| e.to_string()),
+                    _ => {
+                        drop(permit);
+                        Ok(())
+                    }
                 }
-            };
+            })
+            .await;
+            let Some(r) = r else { break PhaseEnd::Abort };
             if let Err(e) = r {
                 violation("store-transaction-failed", "other component's transaction", e);
                 break PhaseEnd::Abort;
@@ -574,7 +595,8 @@ async fn run_phase(phase: usize, sqlite: &SqliteStore, acked: &Acked, model: &Rc
             ev!("{what}");
         } else if t_permit.is_none() && t_budget > 0 && !inside.iter().any(|x| *x) && ctx::chance("t.begin", 1, 3) {
             t_budget -= 1;
-            match sqlite.begin().await {
+            let Some(began) = bounded("other component's SqliteStore::begin", sqlite.begin()).await else { break PhaseEnd::Abort };
+            match began {
                 Ok(p) => t_permit = Some(p),
                 Err(e) => {
                     violation("store-transaction-failed", "other component's transaction", e.to_string());
@@ -686,7 +708,7 @@ async fn run_phase(phase: usize, sqlite: &SqliteStore, acked: &Acked, model: &Rc
         if end == PhaseEnd::Restart {
             drop(p);
         } else {
-            let _ = sqlite.rollback(p).await;
+            let _ = bounded("other component's commit / rollback", sqlite.rollback(p)).await;
         }
     }
     end
@@ -832,9 +854,9 @@ impl Property for C07Prop {
             ev!("final model {}; successful own-topic acks {}", env.show(&m.cursor), m.acks_ok);
             drop(m);
             for o in old_pools {
-                o.pool().close().await;
+                let _ = tokio::time::timeout(Duration::from_secs(10), o.pool().close()).await;
             }
-            sqlite.pool().close().await;
+            let _ = tokio::time::timeout(Duration::from_secs(10), sqlite.pool().close()).await;
         });
     }
 }
